@@ -1,0 +1,16 @@
+//go:build verif
+
+package blobpacked
+
+import "perkeep.org/pkg/blobserver"
+
+// VerifSetMaxZipBlobSize sets the maximum zip size of a blobpacked
+// storage. It reports whether sto is one.
+func VerifSetMaxZipBlobSize(sto blobserver.Storage, n int) bool {
+	s, ok := sto.(*storage)
+	if !ok {
+		return false
+	}
+	s.forceMaxZipBlobSize = n
+	return true
+}
